@@ -166,8 +166,16 @@ def handle (st : St) (line : String) : St × String :=
     | some s => (st, s)
     | none => (st, "bad-op")
 
-def run (_ : List String) : IO UInt32 := do
-  foldLines (← IO.getStdin) (← IO.getStdout) handle St.init
+/-- `ctvmodel C19 http`: the HTTP layer does not distinguish error kinds -/
+def handleHttp (st : St) (line : String) : St × String :=
+  let (st', o) := handle st line
+  (st', if o = "err nf" ∨ o = "err x" then "err" else o)
+
+def run (args : List String) : IO UInt32 := do
+  if args.contains "http" then
+    foldLines (← IO.getStdin) (← IO.getStdout) handleHttp St.init
+  else
+    foldLines (← IO.getStdin) (← IO.getStdout) handle St.init
   return 0
 
 end CTV.Driver.C19
